@@ -24,15 +24,17 @@ type EngCfg struct {
 	MemTableSize int64
 	MaxMemTables int
 	Sync         config.SyncMode
+	WALMax       int64 // wal_max_size (0 = default); it only decides whether a reopening may continue the newest log file
 }
 
 var engCfgs = map[string]EngCfg{
-	"big":   {"big", 32 << 20, 4, config.SyncImmediate},
-	"tiny":  {"tiny", 1, 4, config.SyncImmediate},      // every write switches tables
-	"two":   {"two", 40, 4, config.SyncImmediate},      // every second write
-	"tiny2": {"tiny2", 1, 2, config.SyncNone},          // compaction triggers at 2 files
-	"bigN":  {"bigN", 32 << 20, 2, config.SyncNone},
-	"bigB":  {"bigB", 32 << 20, 4, config.SyncBatch},
+	"big":   {"big", 32 << 20, 4, config.SyncImmediate, 0},
+	"tiny":  {"tiny", 1, 4, config.SyncImmediate, 0},      // every write switches tables
+	"two":   {"two", 40, 4, config.SyncImmediate, 0},      // every second write
+	"tiny2": {"tiny2", 1, 2, config.SyncNone, 0},          // compaction triggers at 2 files
+	"bigN":  {"bigN", 32 << 20, 2, config.SyncNone, 0},
+	"bigB":  {"bigB", 32 << 20, 4, config.SyncBatch, 0},
+	"norw":  {"norw", 32 << 20, 4, config.SyncImmediate, 1}, // a reopening never continues the newest log file
 }
 
 // EngOp is one step of an engine program.
@@ -91,6 +93,9 @@ func writeManifest(dir string, c EngCfg) error {
 	cfg.MemTableSize = c.MemTableSize
 	cfg.MaxMemTables = c.MaxMemTables
 	cfg.WALSyncMode = c.Sync
+	if c.WALMax > 0 {
+		cfg.WALMaxSize = c.WALMax
+	}
 	return cfg.SaveManifest(dir)
 }
 
